@@ -48,6 +48,8 @@ def make_gen(pre, handler, cont, log, E):
             raise PreErr("before yield")
         if pre == 1:
             return
+        if pre == 3:
+            raise RuntimeError("runtime error before yield")
         if handler == 0:
             yield VALUE
             log.append("resumed")
@@ -91,6 +93,8 @@ def make_gen(pre, handler, cont, log, E):
             log.append("resumed-after-extra-yield")
         elif cont == 2:
             raise AfterErr("afterwards")
+        elif cont == 3:
+            raise StopAsyncIteration("raised by the generator after it was resumed")
         log.append("end")
 
     return gen
@@ -155,7 +159,7 @@ def classify(out, E):
 
 
 def _pre(pre, handler, cont, outcome):
-    ok = 0 <= pre <= 2 and 0 <= handler <= 12 and 0 <= cont <= 2 and 0 <= outcome <= 9
+    ok = 0 <= pre <= 3 and 0 <= handler <= 12 and 0 <= cont <= 3 and 0 <= outcome <= 9
     if P("outcome") is not None:
         ok = ok and outcome == P("outcome")
     if P("pre") is not None:
@@ -208,20 +212,20 @@ def h_cm(pre: int, handler: int, cont: int, outcome: int):
     return finish(ok, ("body" in ls and outcome != 0) or pre != 2 or outcome == 0, ("cm", pre, HANDLERS[handler], cont, OUTCOMES[outcome], cs[0]) if pre == 2 else ("cm", pre, "generator-never-yields: handler/continuation irrelevant", cs[0]))
 
 
-GRID = {"h_cm": lambda: [(p, h, c, o) for p in range(3) for h in range(13) for c in range(3) for o in range(10) if P("outcome") in (None, o) and P("pre") in (None, p)]}
+GRID = {"h_cm": lambda: [(p, h, c, o) for p in range(4) for h in range(13) for c in range(4) for o in range(10) if P("outcome") in (None, o) and P("pre") in (None, p)]}
 
 
 def jobs(tier):
     J = []
     for o in range(10):
         J.append({"module": "c13", "fn": "h_cm", "part": {"outcome": o, "pre": 2}, "timeout": 200 if tier == "quick" else 900, "preflight_budget": 60})
-    for p in (0, 1):
+    for p in (0, 1, 3):
         J.append({"module": "c13", "fn": "h_cm", "part": {"pre": p}, "timeout": 200 if tier == "quick" else 900, "preflight_budget": 60})
     return J
 
 
 LEVEL = "other"
-BOUNDS = {"quick": "all 936 generator programs x block outcomes of the property's grammar (3 x 13 x 3 x 10: the grammar's eight block outcomes plus exactly-Exception and exactly-BaseException; the grammar's ten handlers plus three that raise a new RuntimeError), each selected by four symbolic ints; also executed natively on the full grid", "thorough": "same (the space is finite and exhausted)"}
+BOUNDS = {"quick": "all 936 generator programs x block outcomes of the property's grammar (4 x 13 x 4 x 10: a RuntimeError raised before the yield and a StopAsyncIteration raised after resumption added; the grammar's eight block outcomes plus exactly-Exception and exactly-BaseException; the grammar's ten handlers plus three that raise a new RuntimeError), each selected by four symbolic ints; also executed natively on the full grid", "thorough": "same (the space is finite and exhausted)"}
 OUTSIDE = ["generators with more than one try block or nested context managers", "__context__/__cause__ chains of the propagated exception", "KeyboardInterrupt is represented by a subclass"]
 NONTRIVIAL_RULE = "the block was entered and ended with an exception on the path"
 
